@@ -67,12 +67,13 @@ class Run:
     def extend(self, obs):
         self.obs.extend(obs)
 
-    def match_known(self, oid, witness=None):
-        """a violated obligation is a known finding iff the committed file lists this obligation id (and, where the entry
-        names a witness class, the witness falls in it)"""
+    def match_known(self, oid, detail=None):
+        """a violated obligation is a known finding iff the committed file lists this obligation id and, where the entry
+        carries a 'signature' (the exact way it fails), the observed failure has that signature.  A different failure of the
+        same obligation is a new violation."""
         for k in self.known:
             if k['obligation'] == oid:
-                if 'witness_class' in k and witness is not None and k['witness_class'] != witness:
+                if 'signature' in k and k['signature'] != detail:
                     continue
                 return k
         return None
